@@ -21,7 +21,7 @@ pub fn run_scenario(p: &Params, name: &str, idx: u64) -> HistResult {
         fnv(&mut hs, b as u64);
     }
     let seed = mix(p.seed ^ hs, idx);
-    alloc::set_poison(true);
+    alloc::set_poison(!p.no_poison);
     match name {
         "starve" => starve(p, seed),
         "budget" => budget(p, seed),
